@@ -58,6 +58,7 @@ struct DomExec {
   std::vector<std::unique_ptr<PoolA>> pools;
   WriteBuffer* wb[NWB] = {nullptr, nullptr, nullptr};
   std::vector<char*> keep;
+  std::vector<std::pair<char*, std::string>> shared_const;   // const string buffers that later, shorter strings may alias
   std::vector<std::pair<char*, size_t>> canaries;   // bytes right behind user-supplied pool buffers
   void check_canaries() {
     for (auto& c : canaries) for (size_t i = 0; i < c.second; i++) if ((unsigned char)c.first[i] != 0xC5) violate("overlap", site("user_buffer_overrun"), "a pool constructed over a caller-supplied buffer wrote past the end of that buffer (" + std::to_string(c.second - i) + " byte(s) before its end were overwritten)");
@@ -443,7 +444,7 @@ struct DomExec {
     const std::string& k = op.kind;
     N& root = static_cast<N&>(d);
     A& alloc = d.GetAllocator();
-    BuildCtx bc; bc.seed = mix64(seed ^ (uint64_t)cur_op * 31337); bc.keep = &keep; bc.str_mode = (int)plan.K("str_mode", 2);
+    BuildCtx bc; bc.seed = mix64(seed ^ (uint64_t)cur_op * 31337); bc.keep = &keep; bc.str_mode = (int)plan.K("str_mode", 2); bc.shared = &shared_const;
 
     // ---------------- document-level parse family
     if (k == "Parse" || k == "ParseOnDemand" || k == "ParseSchema") {
